@@ -63,7 +63,7 @@ def _verify_one(args):
 def run_D(keys, tier="quick", use_cache=True):
     """verify the given functions; returns {key: result}"""
     timeout_ms = 8000 if tier == "quick" else 30000
-    hard_s = 60 if tier == "quick" else 240
+    hard_s = 150 if tier == "quick" else 400
     ehash = _engine_hash()
     ncpu = os.cpu_count() or 4
     outer = min(len(keys), 4) or 1
